@@ -10,6 +10,7 @@ pub mod hostile;
 pub mod peers;
 pub mod registry_tree;
 pub mod stream_ctl;
+pub mod svs;
 
 pub fn all() -> &'static [Family] {
     static ALL: std::sync::OnceLock<Vec<Family>> = std::sync::OnceLock::new();
@@ -21,6 +22,7 @@ pub fn all() -> &'static [Family] {
         v.extend(fleet_blocking::families());
         v.extend(server_blocking::families());
         v.extend(hostile::families());
+        v.extend(svs::families());
         v.extend(registry_tree::families());
         v
     })
